@@ -229,7 +229,7 @@ mod ir_builder {
                 }
 
             rule unary_op_kind() -> UnaryOpKind
-                = "not" _ { UnaryOpKind::Not }
+                = "not" !id_char() _ { UnaryOpKind::Not }
 
             rule binary_op_kind() -> BinaryOpKind
                 = "add" _ { BinaryOpKind::Add }
@@ -426,7 +426,7 @@ mod ir_builder {
                 }
 
             rule op_load() -> IrAstOperation
-                = "load" _ src:id() {
+                = "load" !id_char() _ src:id() {
                     IrAstOperation::Load(src)
                 }
 
@@ -465,7 +465,7 @@ mod ir_builder {
                 }
 
             rule op_mem_clear_val() -> IrAstOperation
-            = "mem_clear_val" _ dst_name:id() {
+            = "mem_clear_val" !id_char() _ dst_name:id() {
                 IrAstOperation::MemClearVal(dst_name)
             }
 
@@ -490,7 +490,7 @@ mod ir_builder {
                 }
 
             rule op_revert() -> IrAstOperation
-                = "revert" _ vn:id() {
+                = "revert" !id_char() _ vn:id() {
                     IrAstOperation::Revert(vn)
                 }
 
